@@ -1283,8 +1283,14 @@ class Run:
         ok = False
         for _ in range(max(1, nbad)):
             self.frame_obs = None
+            # (armed callbacks do not react in these frames: which deletions a failed frame applied is not
+            # modelled, so operations issued from callbacks could hit an entity in the middle of its own removal)
+            self.in_process, self.no_react = True, True
             try:
-                with_budget(self.line_budget(), self.world.process, 1)
+                try:
+                    with_budget(self.line_budget(), self.world.process, 1)
+                finally:
+                    self.in_process, self.no_react = False, False
                 ok = True
                 break
             except StepBudgetExceeded as exc:
